@@ -145,6 +145,13 @@ def _gen_case(rp, rf, rk, tier, flavour):
             ips.append(last[0] + "." + last[1] + "1")
             prefix_pair = [base, ips[-1]]
     macs = [mac(rp) for _ in range(rp.randint(0, 3))]
+    mac_twins = []
+    if macs and rp.random() < 0.3:
+        m0 = macs[0]
+        tw = m0.lower() if m0.isupper() else m0.upper()
+        if tw != m0:
+            macs.append(tw)                 # the same address in the other letter case (HWADDR= style vs ip addr style)
+            mac_twins.append([m0, tw])
     kws = rp.sample(KEYWORDS, rp.randint(0, 3))
     regex = rp.random() < 0.35
     if regex:
@@ -245,7 +252,7 @@ def _gen_case(rp, rf, rk, tier, flavour):
     case = {"w": "w3", "flavour": flavour, "cfg": cfg, "fqdn": fqdn, "keywords": kws, "patterns": patterns, "specs": specs,
             "kw_pad": rk.random() < 0.15, "facts_mid": (rk.randrange(len(specs)) if flavour == "C09" and rk.random() < 0.2 else None),
             "marker_mode": marker_mode, "regime": "collision" if collision else ("k6" if k6 else "base"),
-            "suffix_pair": suffix_pair, "prefix_pair": prefix_pair, "_pool": pool}
+            "suffix_pair": suffix_pair, "prefix_pair": prefix_pair, "mac_twins": mac_twins, "_pool": pool}
     if collision:
         # plant originals that equal substitutes the obfuscator will have issued by then
         n_issued = len(ips)
@@ -490,6 +497,10 @@ def oracle_c09(case, r, stats, facts_dir):
         origs = [a for a, _ in final[k]]
         if len(set(origs)) != len(origs):
             viols.append(V("C09.consistent", "one-original-two-substitutes:%s%s" % (k, sfx), "mapping %r lists an original twice" % (final[k],)))
+    mm = dict(final["mac"])
+    for a, b in case.get("mac_twins") or []:
+        if a in mm and b in mm and mm[a].lower() != mm[b].lower():
+            viols.append(V("C09.consistent", "same-mac-two-substitutes:letter-case", "the address %s / %s got two unrelated substitutes %s / %s" % (a, b, mm[a], mm[b])))
     exps = expected_outputs(case, final)
     for si, (exp, out) in enumerate(zip(exps, r.outputs)):
         if out is None:
@@ -757,6 +768,18 @@ class C10(CleanerCheck):
         case = gen_case(st, tier, "C10")
         # competition: a keyword that also occurs inside a host label / next to an address
         rp = st.prog
+        if case["keywords"] and rp.random() < 0.4:
+            # two configured keywords that overlap in the text: one inside the other, planted together on some lines
+            k0 = case["keywords"][0]
+            inner = k0[:max(2, len(k0) - 2)]
+            outer = k0 + rp.choice(["-PROD", "XX"])
+            extra = rp.choice([[inner], [outer], [inner, outer]])
+            case["keywords"] = rp.sample(case["keywords"] + extra, len(case["keywords"]) + len(extra))
+            for spec in case["specs"]:
+                for segs in spec["lines"]:
+                    for sg in segs:
+                        if sg[0] == "kw" and sg[1] == k0 and rp.random() < 0.5:
+                            sg[1] = outer if outer in case["keywords"] else k0
         if case["keywords"] and rp.random() < 0.5:
             kw = case["keywords"][0]
             for spec in case["specs"]:
